@@ -3522,3 +3522,28 @@ pub fn spin_pingpong_family() -> Vec<Program> {
     }
     out
 }
+
+/// LOAD-then-wait: a relaxed (or acquire) load with several candidate stores directly followed,
+/// in the same thread, by a `Notify::wait` that can return spuriously - a Load decision directly
+/// in front of a Spurious decision - with the store and the notification in one or two other
+/// threads, the waiter being main or a child, and a probe of the notifier's flag after the wait
+/// (tells a spurious return from a real one).
+pub fn load_then_wait_family() -> Vec<Program> {
+    let mut out = vec![];
+    let objs = Objs { atomics: vec![0, 0], notifies: 1, ..Default::default() };
+    for lmo in [Rlx, Acq] {
+        for nstores in 1..=2u64 {
+            let stores: Vec<Op> = (1..=nstores).map(|v| st(0, v, Rlx)).collect();
+            let waiter: Vec<Op> = vec![ld(0, lmo), K::NWait { n: 0 }.into(), fadd(1, 0, Sc)];
+            let notifier: Vec<Op> = vec![st(1, 1, Sc), K::NNotify { n: 0 }.into()];
+            // three threads: waiter, storing thread, notifier
+            out.push(with_main("LOAD-then-wait", objs.clone(), vec![], vec![stores.clone(), notifier.clone()], waiter.clone(), vec![]));
+            out.push(with_main("LOAD-then-wait", objs.clone(), vec![], vec![waiter.clone(), stores.clone(), notifier.clone()], vec![], vec![]));
+            // two threads: the storing thread also notifies
+            let both: Vec<Op> = stores.iter().cloned().chain(notifier.iter().cloned()).collect();
+            out.push(with_main("LOAD-then-wait-2", objs.clone(), vec![], vec![both.clone()], waiter.clone(), vec![]));
+            out.push(with_main("LOAD-then-wait-2", objs.clone(), vec![], vec![waiter.clone()], both, vec![]));
+        }
+    }
+    out
+}
